@@ -54,7 +54,7 @@ def worker(states):
         out['n'] += 1
         nontrivial = len(run['law']) >= 2
         out['nontrivial'] += nontrivial
-        case = dict(tree=tree, law=run['law'], observed=[[e['p'], e['v']] for e in obs['log']], text=repr(obs['spec']))
+        case = dict(tree=tree, law=run['law'], observed=[[e['p'], e['v']] for e in obs['log']], text=repr(obs['spec']), run=run)
         why = None
         if obs['out'] != run['out']:
             why = 'call outcome %s (%r), expected %s' % (obs['out'], obs['error'], run['out'])
@@ -88,6 +88,37 @@ def worker(states):
         elif nontrivial and len(out['samples']) < 1:
             out['samples'].append(case)
     return out
+
+
+
+
+def replay(path):
+    """re-run one stored case (bin/check C08 --replay <file>) against the library as it is now"""
+    import json
+    blob = json.load(open(path))
+    st = _state_of(blob['case'])
+    if st is None:
+        print('REPLAY property=C08: %s holds a recorded observation, not a case of the enumerated universe; it was rejected with: %s'
+              % (path, str(blob.get('why'))[:300]))
+        print('(the file alone does not allow the case to be re-executed: re-run bin/check C08 to observe the library again)')
+        return 2
+    out = _replay_states([st])
+    if out['bad']:
+        print('VIOLATION property=C08 replay=%s' % path)
+        print('  why: %s' % (str(out['bad'][0]['why'])[:400],))
+        return 1
+    print('REPLAY property=C08: the stored case agrees with the specification now (%s)' % path)
+    return 0
+
+
+def _state_of(case):
+    if 'tree' in case and 'run' in case:
+        return dict(tree=case['tree'], run=case['run'], phase=1, k=0)
+    return None
+
+
+def _replay_states(states):
+    return worker(states)
 
 
 # ---- code -> spec ----------------------------------------------------------------------------------
